@@ -733,6 +733,30 @@ func (e *rxEnv) addEEDHook() {
 	})
 }
 
+// refusedHooks: a registration that is refused (a nil hook after a valid one): nothing of it may stay
+// registered — the valid hook of the refused call is never called
+func (e *rxEnv) refusedHooks(env bool) {
+	var err error
+	if env {
+		err = e.ch.RegisterEnvChangeHooks(func(typ tds.EnvChangeType, oldValue, newValue string) {
+			e.mu.Lock()
+			e.hooks = append(e.hooks, "REFUSED-ENV-HOOK-CALLED")
+			e.mu.Unlock()
+		}, nil)
+	} else {
+		err = e.ch.RegisterEEDHooks(func(eed tds.EEDPackage) {
+			e.mu.Lock()
+			e.hooks = append(e.hooks, "REFUSED-EED-HOOK-CALLED")
+			e.mu.Unlock()
+		}, nil)
+	}
+	if err == nil {
+		e.mu.Lock()
+		e.hooks = append(e.hooks, "NIL-HOOK-ACCEPTED")
+		e.mu.Unlock()
+	}
+}
+
 func (e *rxEnv) addEnvHook() {
 	i := e.nEnv
 	e.nEnv++
@@ -839,6 +863,10 @@ func useImpl(line string) string {
 			e.addEEDHook()
 		case "+n":
 			e.addEnvHook()
+		case "+E":
+			e.refusedHooks(false)
+		case "+N":
+			e.refusedHooks(true)
 		default:
 			if !e.feedPacket(t) {
 				return "bad-op"
